@@ -5406,7 +5406,7 @@ impl<'a, 'graph> Builder<'a, 'graph> {
         let specifier = self
           .jsr_url_provider
           .url()
-          .join(&format!("{}/{}_meta.json", package_req.name, version))
+          .join(&format!("./{}/{}_meta.json", package_req.name, version))
           .unwrap();
         (version.clone(), specifier)
       })
